@@ -37,6 +37,9 @@
 #define M_RT 4
 
 struct set_s { uint8_t s[SS ? SS : 1], k[SK ? SK : 1], v[SV ? SV : 1]; };
+#ifndef ZCONV
+#define ZCONV 0
+#endif
 struct in_s {
 	uint8_t text[TLEN];
 	uint8_t qs[QS ? QS : 1], qk[QK ? QK : 1];
@@ -248,7 +251,9 @@ static void r_set(const uint8_t *s, size_t slen, const uint8_t *k, size_t klen, 
 static void check_lookup(ini_p ini, const uint8_t *qs, const uint8_t *qk, int icase, const char *tag) {
 	const uint8_t *val = NULL;
 	size_t vsz = 777;
-	int e = icase ? ini_vali_get(ini, qs, QS, qk, QK, &val, &vsz) : ini_val_get(ini, qs, QS, qk, QK, &val, &vsz);
+	/* ZCONV: size 0 = "NUL-terminated name" convention, per argument (bit 0 section, bit 1 key) */
+	const size_t ps = ((ZCONV & 1) ? 0 : QS), pk = ((ZCONV & 2) ? 0 : QK);
+	int e = icase ? ini_vali_get(ini, qs, ps, qk, pk, &val, &vsz) : ini_val_get(ini, qs, ps, qk, pk, &val, &vsz);
 	int si = r_find_sect(qs, QS, icase);
 	int vi = (si < 0) ? -1 : r_find_val(si, qk, QK, icase);
 	(void)tag;
@@ -282,7 +287,15 @@ void harness(void) {
 		}
 		V_ASSERT(off == TLEN, "HARNESS shape lengths add up");
 	}
+#if ZCONV
+	uint8_t qs0[QS + 1], qk0[QK + 1];
+	for (size_t i = 0; i < QS; i++) qs0[i] = IN.qs[i];
+	for (size_t i = 0; i < QK; i++) qk0[i] = IN.qk[i];
+	qs0[QS] = 0; qk0[QK] = 0;
+	uint8_t *qs = v_buf(qs0, QS + ((ZCONV & 1) ? 1 : 0)), *qk = v_buf(qk0, QK + ((ZCONV & 2) ? 1 : 0));
+#else
 	uint8_t *qs = v_buf(IN.qs, QS), *qk = v_buf(IN.qk, QK);
+#endif
 	for (size_t i = 0; i < QS; i++) V_ASSUME(in_name_alpha(qs[i]));
 	for (size_t i = 0; i < QK; i++) V_ASSUME(in_name_alpha(qk[i]) && qk[i] != ']');
 
